@@ -979,6 +979,10 @@ func (ff *FnFacts) nilErr(v ssa.Value, facts FactSet) (bool, []Fact) {
 		}
 		return possible, acc.Sorted()
 	}
+	// a value built by a constructor that never returns nil (fmt.Errorf, errors.New, …) is non-nil whatever it wraps
+	if call, ok := v.(*ssa.Call); ok && nonNilErrorCtor(call.Common().StaticCallee()) {
+		return false, nil
+	}
 	ct := ff.callOfErr(v)
 	if ct != nil {
 		if facts.Has((&Fact{Kind: "fail", A: ct}).Key()) {
